@@ -8,6 +8,8 @@ use crate::amv::{cover, nd};
 // ---- callee contract stubs for the graph functions (their bodies are out of CBMC's reach; contracts G2/G3/G5 of
 //      DESIGN.md are ASSUMED). The stubs record how their callers use them. -------------------------------------------
 pub(crate) static mut SORT_CALLS: u8 = 0;
+/// when set, the sort stub answers "no asset is affected" (an entry the graph knows but that nobody records any more)
+pub(crate) static mut SORT_EMPTY: bool = false;
 pub(crate) static mut SORT_SAW: [bool; 2] = [false; 2]; // entry File(a,x) / File(b,x) offered to the sort
 pub(crate) static mut SORT_SAW_N: u8 = 0;
 pub(crate) static mut RELOAD_CALLS: u8 = 0;
@@ -33,6 +35,9 @@ pub(crate) fn sort_rec<'a>(_this: &DepsGraph, iter: impl IntoIterator<Item = &'a
                 SORT_SAW[i] = true;
             }
         }
+    }
+    if unsafe { SORT_EMPTY } {
+        return TopologicalSort(Vec::new());
     }
     TopologicalSort(vec![OwnedKey::new_with("b".into(), tid(0)), OwnedKey::new_with("a".into(), tid(0))])
 }
